@@ -4,6 +4,8 @@ import GeosModel.Base.F64
 import GeosModel.Model.Relate.Agree
 import GeosModel.Model.Relate.RectFast
 import GeosModel.Model.Relate.ScratchPoint
+import GeosModel.Model.Relate.Converse
+import GeosModel.Base.Env
 import Driver.Flatten
 /-! Driver for C02: evaluates `consistent` (Model/Relate/Agree.lean) on the observation the harness made,
 plus the rectangle-variant and XY-form equalities. -/
@@ -232,6 +234,56 @@ def pointSetXY (line : String) : String :=
     | _, _ => "parse-error"
   | _ => "bad-line"
 
+/-! #### stream pred-converse: the real predicate classes, a predicate on (A,B) and its converse on (B,A), against Model/Relate/Pred + EnvExit +
+Converse (theorems of Props/C02Conv: the two columns of the model agree in flags (mirrored), initialisation and final value) -/
+def parseKind (s : String) : Option Kind :=
+  match s.splitOn ":" with
+  | ["intersects"] => some .intersects | ["disjoint"] => some .disjoint | ["contains"] => some .contains
+  | ["within"] => some .within | ["covers"] => some .covers | ["coveredBy"] => some .coveredBy
+  | ["crosses"] => some .crosses | ["equalsTopo"] => some .equalsTopo | ["overlaps"] => some .overlaps
+  | ["touches"] => some .touches
+  | ["pattern", p] => some (.pattern (patOfChars p.toList))
+  | _ => none
+
+def parseBox : List String → Option Env
+  | ["n"] => some none
+  | [a, b, c, d] => do some (some ⟨← a.toInt?, ← b.toInt?, ← c.toInt?, ← d.toInt?⟩)
+  | _ => none
+
+def envEquals : Env → Env → Bool
+  | none, o => o.isNone
+  | some a, some o => a == o
+  | some _, none => false
+
+def stChar (s : PState) : Char := match s.value with | none => 'u' | some true => 't' | some false => 'f'
+
+def flagsOf (k : Kind) : String :=
+  let b (v : Bool) : Char := if v then '1' else '0'
+  String.ofList [b (k.requireCovers true), b (k.requireCovers false), b (k.requireExteriorCheck true), b (k.requireExteriorCheck false), b k.requireInteraction]
+
+def predConverse (line : String) : String :=
+  match splitBar (Driver.tokens line) with
+  | [["V", k, dA, dB], ea, eb, ups] =>
+    match parseKind k, dA.toInt?, dB.toInt?, parseBox ea, parseBox eb with
+    | some k, some dA, some dB, some ea, some eb =>
+      let facts : EnvFacts := { intersects := Env.inter ea eb, aCoversB := Env.covers ea eb, bCoversA := Env.covers eb ea,
+                                equal := envEquals ea eb, bothNull := ea.isNone && eb.isNone }
+      let us : List Upd := ups.filterMap fun u =>
+        match u.toList with
+        | [a, b, d] => match loc3 a, loc3 b, (String.ofList [d]).toInt? with
+          | some a, some b, some d => some ⟨a, b, d⟩
+          | _, _, _ => none
+        | _ => none
+      let s0 := (PState.new k).initDim dA dB
+      let t0 := (PState.new k.converse).initDim dB dA
+      let s1 := s0.initEnv facts
+      let t1 := t0.initEnv facts.swap
+      let s2 := (s1.run us).finish
+      let t2 := (t1.run (us.map Upd.swap)).finish
+      s!"{flagsOf k} {flagsOf k.converse} " ++ String.ofList [stChar s0, stChar t0, stChar s1, stChar t1] ++ " " ++ String.ofList [stChar s2, stChar t2]
+    | _, _, _, _, _ => "parse-error"
+  | _ => "bad-line"
+
 end Driver.C02
 
 def main (args : List String) : IO UInt32 := do
@@ -239,5 +291,6 @@ def main (args : List String) : IO UInt32 := do
   | ["relate-dbl"] => Driver.loop (← IO.getStdin) (← IO.getStdout) Driver.C02.check; return 0
   | ["im-algebra"] => Driver.loop (← IO.getStdin) (← IO.getStdout) Driver.C02.imAlgebra; return 0
   | ["rect-fast"] => Driver.loop (← IO.getStdin) (← IO.getStdout) Driver.C02.rectFast; return 0
+  | ["pred-converse"] => Driver.loop (← IO.getStdin) (← IO.getStdout) Driver.C02.predConverse; return 0
   | ["point-setxy"] => Driver.loop (← IO.getStdin) (← IO.getStdout) Driver.C02.pointSetXY; return 0
   | _ => IO.eprintln "usage: drv_c02 relate-dbl"; return 2
